@@ -301,3 +301,176 @@ Fixpoint schema2_ind' (P : schema2 -> Prop)
                   | bf :: r => Forall_cons bf (schema2_ind' P Hl Hs (snd bf)) (go r)
                   end) fs)
   end.
+
+(* ---- the round trip ---- *)
+Definition EndOK (fs : list (bool * schema2)) (c : cons) (s : src) : Prop :=
+  forall t, In t (opt_tags fs) -> NoTag t c s.
+
+Definition RT2 (s : schema2) : Prop :=
+  forall v e m d, ok2 s -> enc2 s v = Some e -> enc_write m e = Ok d ->
+  1 <= len d /\ (exists k tl, d = tag_write k (tag_of s) ++ tl) /\
+  forall fuel c rest l, (depth2 s <= fuel)%nat -> reads m (cmd c) -> octets_ok (d ++ rest) = true ->
+    lim_ge l (len d) -> ctx_ok c l ->
+    dec2 fuel s c (mkSrc (d ++ rest) l None) = (Ok (Some v, c), mkSrc rest (lim_sub l (len d)) None).
+
+Definition RTL2 (fs : list (bool * schema2)) : Prop :=
+  forall vs es m ds, ok2l fs -> distinct fs -> enc2l fs vs = Some es -> enc_write m (ESeq es) = Ok ds ->
+  (ds = [] \/ exists t' k tl, ds = tag_write k t' ++ tl /\ In t' (head_tags fs) /\ legal_tag t') /\
+  forall fuel c rest l, (depth2l fs <= fuel)%nat -> reads m (cmd c) -> octets_ok (ds ++ rest) = true ->
+    lim_ge l (len ds) -> ctx_ok c l -> EndOK fs c (mkSrc rest (lim_sub l (len ds)) None) ->
+    dec2l fuel fs c (mkSrc (ds ++ rest) l None) = (Ok (vs, c), mkSrc rest (lim_sub l (len ds)) None).
+
+Lemma mandatory_ok {T} (m : M (option T * cons)) s v c s' :
+  m s = (Ok (Some v, c), s') -> mandatory m s = (Ok (v, c), s').
+Proof. intro H. unfold mandatory, bind. rewrite H. reflexivity. Qed.
+
+Lemma opt_tags_ok fs t : ok2l fs -> In t (opt_tags fs) -> tag_ok t.
+Proof.
+  induction fs as [|[o x] r IH]; cbn [ok2l opt_tags]; [intros _ []|]. intros [Hx Hr] Hin.
+  destruct o; [destruct Hin as [<-|Hin]; [apply ok2_tag, Hx|]|]; auto.
+Qed.
+
+Lemma RTL2_of_Forall fs : Forall (fun bf => RT2 (snd bf)) fs -> RTL2 fs.
+Proof.
+  induction 1 as [|[o s] r Hs Hr IH]; intros vs es m ds Hok Hdi He Hw.
+  - destruct vs; [|discriminate]. injection He as <-. injection Hw as <-. split; [left; reflexivity|].
+    intros fuel c rest l Hf Hm Ho Hl Hc _.
+    destruct fuel as [|f]; [cbn in Hf; lia|]. cbn [dec2l app len length N.of_nat]. rewrite lim_sub_0. reflexivity.
+  - cbn [snd] in Hs. destruct Hok as [Hok1 Hok2]. destruct Hdi as [Hd1 Hd2].
+    pose proof (ok2_tag s Hok1) as [Hleg Heov].
+    destruct o.
+    + (* OPTIONAL field *)
+      destruct vs as [|v0 vr]; [discriminate|]. destruct v0 as [x|b| |vs0|[x|]]; try discriminate.
+      * (* present *)
+        cbn [enc2l] in He. destruct (enc2 s x) as [e|] eqn:E1; [|discriminate].
+        destruct (enc2l r vr) as [er|] eqn:E2; [|discriminate]. injection He as <-.
+        destruct (enc_write_seq_cons m _ er ds Hw) as (d1 & ds2 & W1 & W2 & ->). cbn [enc_write] in W1.
+        destruct (Hs x e m d1 Hok1 E1 W1) as (Hpos & (k & tl & Htag) & Hdec).
+        destruct (IH vr er m ds2 Hok2 Hd2 E2 W2) as [_ IHd].
+        split. { right. exists (tag_of s), k, (tl ++ ds2). rewrite Htag, <- app_assoc. split; [reflexivity|]. split; [left; reflexivity|exact Hleg]. }
+        intros fuel c rest l Hf Hm Ho Hl Hc Hend. cbn [depth2l] in Hf.
+        pose proof (depth2_pos s) as Hp1. pose proof (depth2l_pos r) as Hp2.
+        destruct fuel as [|f]; [lia|]. cbn [dec2l]. rewrite <- app_assoc. rewrite len_app in Hl.
+        rewrite (bind_ok _ _ _ _ _ (Hdec f c (ds2 ++ rest) l ltac:(lia) Hm ltac:(rewrite app_assoc; exact Ho)
+                                      ltac:(eapply lim_ge_mono; [|exact Hl]; lia) Hc)).
+        cbv iota beta.
+        rewrite (bind_ok _ _ _ _ _ (IHd f c rest (lim_sub l (len d1)) ltac:(lia) Hm
+                    ltac:(rewrite <- app_assoc in Ho; apply octets_ok_app_r in Ho; exact Ho)
+                    ltac:(apply lim_ge_sub; exact Hl) (ctx_ok_sub _ _ _ Hc)
+                    ltac:(intros t Ht; rewrite lim_sub_sub, <- len_app; apply Hend; cbn [opt_tags]; right; exact Ht))).
+        rewrite lim_sub_sub, len_app. reflexivity.
+      * (* absent *)
+        cbn [enc2l] in He. destruct (enc2l r vr) as [er|] eqn:E2; [|discriminate]. injection He as <-.
+        destruct (enc_write_seq_cons m _ er ds Hw) as (d1 & ds2 & W1 & W2 & ->). cbn [enc_write] in W1. injection W1 as <-.
+        cbn [app] in *.
+        destruct (IH vr er m ds2 Hok2 Hd2 E2 W2) as [IHt IHd].
+        split. { destruct IHt as [->|(t' & k & tl & -> & Hin & Hl')]; [left; reflexivity|].
+                 right. exists t', k, tl. split; [reflexivity|]. split; [right; exact Hin|exact Hl']. }
+        intros fuel c rest l Hf Hm Ho Hl Hc Hend. cbn [depth2l] in Hf.
+        pose proof (depth2_pos s) as Hp1. pose proof (depth2l_pos r) as Hp2.
+        destruct fuel as [|f]; [lia|]. cbn [dec2l].
+        assert (Hno : NoTag (tag_of s) c (mkSrc (ds2 ++ rest) l None)).
+        { destruct IHt as [->|(t' & k & tl & -> & Hin & Hl')].
+          - cbn [app len length N.of_nat] in *. rewrite <- (lim_sub_0 l). apply Hend. left. reflexivity.
+          - rewrite <- app_assoc. apply NoTag_peek; [exact Hl'| | |].
+            + intro E. subst t'. exact (Hd1 eq_refl Hin).
+            + eapply lim_ge_mono; [|exact Hl]. rewrite len_app. lia.
+            + apply (may_start_of c l (len (tag_write k t' ++ tl)) Hc Hl). rewrite len_app. pose proof (tag_write_len_pos k t'). lia. }
+        assert (Hd0 : dec2 f s c (mkSrc (ds2 ++ rest) l None) = (Ok (None, c), mkSrc (ds2 ++ rest) l None)).
+        { destruct f as [|f']; [lia|]. destruct s as [t0 k0|t0 fs0]; cbn [dec2 tag_of] in *; apply Hno. }
+        rewrite (bind_ok _ _ _ _ _ Hd0). cbv iota beta.
+        rewrite (bind_ok _ _ _ _ _ (IHd f c rest l ltac:(lia) Hm Ho Hl Hc
+                    ltac:(intros t Ht; apply Hend; right; exact Ht))).
+        reflexivity.
+    + (* mandatory field *)
+      destruct vs as [|v vr]; [discriminate|]. cbn [enc2l] in He.
+      destruct (enc2 s v) as [e|] eqn:E1; [|discriminate].
+      destruct (enc2l r vr) as [er|] eqn:E2; [|discriminate]. injection He as <-.
+      destruct (enc_write_seq_cons m e er ds Hw) as (d1 & ds2 & W1 & W2 & ->).
+      destruct (Hs v e m d1 Hok1 E1 W1) as (Hpos & (k & tl & Htag) & Hdec).
+      destruct (IH vr er m ds2 Hok2 Hd2 E2 W2) as [_ IHd].
+      split. { right. exists (tag_of s), k, (tl ++ ds2). rewrite Htag, <- app_assoc. split; [reflexivity|]. split; [left; reflexivity|exact Hleg]. }
+      intros fuel c rest l Hf Hm Ho Hl Hc Hend. cbn [depth2l] in Hf.
+      pose proof (depth2_pos s) as Hp1. pose proof (depth2l_pos r) as Hp2.
+      destruct fuel as [|f]; [lia|]. cbn [dec2l]. rewrite <- app_assoc. rewrite len_app in Hl.
+      rewrite (bind_ok _ _ _ _ _ (mandatory_ok _ _ _ _ _ (Hdec f c (ds2 ++ rest) l ltac:(lia) Hm ltac:(rewrite app_assoc; exact Ho)
+                                    ltac:(eapply lim_ge_mono; [|exact Hl]; lia) Hc))).
+      cbv iota beta.
+      rewrite (bind_ok _ _ _ _ _ (IHd f c rest (lim_sub l (len d1)) ltac:(lia) Hm
+                  ltac:(rewrite <- app_assoc in Ho; apply octets_ok_app_r in Ho; exact Ho)
+                  ltac:(apply lim_ge_sub; exact Hl) (ctx_ok_sub _ _ _ Hc)
+                  ltac:(intros t Ht; rewrite lim_sub_sub, <- len_app; apply Hend; exact Ht))).
+      rewrite lim_sub_sub, len_app. reflexivity.
+Qed.
+
+Lemma RT2_leaf t k : RT2 (S2Leaf t k).
+Proof.
+  intros v e m d Hok He Hw. cbn [enc2] in He. destruct (lenc k v) as [cc|] eqn:El; [|discriminate].
+  injection He as <-. cbn [enc_write] in Hw. unfold tlv_write in Hw.
+  destruct (length_write (len cc)) as [lw| | | |] eqn:Elw; try discriminate. injection Hw as <-.
+  destruct Hok as [Hleg Heov].
+  split. { rewrite len_app. pose proof (tag_write_len_pos false t). lia. }
+  split. { exists false, (lw ++ cc). reflexivity. }
+  intros fuel c rest l Hf Hm Ho Hl Hc. destruct fuel as [|f]; [cbn in Hf; lia|]. cbn [dec2].
+  apply (leaf_field_if (lop k) t cc lw v c rest l (Win_lop k (cmd c)) (St_lop k (cmd c))
+             Hleg Heov (lenoct_reads _ _ _ _ Hm (lenoct_write _ _ _ Elw)) (leaf_law k (cmd c) v cc El) Ho Hl
+             (may_start_of c l _ Hc Hl ltac:(rewrite len_app; pose proof (tag_write_len_pos false t); lia))).
+Qed.
+
+Lemma RT2_seq t fs : Forall (fun bf => RT2 (snd bf)) fs -> RT2 (S2Seq t fs).
+Proof.
+  intros HF v e m d Hok He Hw. pose proof (RTL2_of_Forall fs HF) as HL.
+  destruct v as [x|b| |vs|o]; try discriminate. rewrite enc2_seq in He.
+  destruct (enc2l fs vs) as [es|] eqn:El; [|discriminate]. injection He as <-.
+  apply ok2_seq in Hok as (Htok & Hdi & Hoks).
+  assert (Hb : exists body, enc_write m (ESeq es) = Ok body).
+  { remember (ESeq es) as be eqn:Ebe. cbn [enc_write] in Hw. destruct m.
+    - destruct (enc_len Ber be) as [n| | | |]; try discriminate. cbn [res_bind] in Hw. destruct (length_write n); try discriminate. cbn [res_bind] in Hw.
+      destruct (enc_write Ber be) as [body| | | |]; try discriminate. eauto.
+    - destruct (enc_write Cer be) as [body| | | |]; try discriminate. eauto.
+    - destruct (enc_len Der be) as [n| | | |]; try discriminate. cbn [res_bind] in Hw. destruct (length_write n); try discriminate. cbn [res_bind] in Hw.
+      destruct (enc_write Der be) as [body| | | |]; try discriminate. eauto. }
+  destruct Hb as [body Eb].
+  destruct (HL vs es m body Hoks Hdi El Eb) as [_ HLd].
+  assert (Hfr : forall f, (depth2l fs <= f)%nat ->
+     1 <= len d /\ (exists tl, d = tag_write true t ++ tl) /\
+     forall c rest l, reads m (cmd c) -> octets_ok (d ++ rest) = true -> lim_ge l (len d) -> ctx_ok c l ->
+       process_next_value c (Some t) (cons_closure (dec2l f fs) VSeq) (mkSrc (d ++ rest) l None)
+       = (Ok (Some (VSeq vs), c), mkSrc rest (lim_sub l (len d)) None)).
+  { intros f Hf. apply (record_frame t (ESeq es) m d body (dec2l f fs) VSeq vs (EndOK fs) Htok Eb Hw).
+    - intros mm rest t0 _. apply NoTag_definite_end.
+    - intros mm rest l Hl t0 Ht0. apply NoTag_eoc; [exact (opt_tags_ok fs t0 Hoks Ht0)|exact Hl].
+    - intros c' rest' l' Hm' Ho' Hl' Hc' Hend. apply (HLd f c' rest' l' Hf Hm' Ho' Hl' Hc' Hend). }
+  destruct (Hfr (depth2l fs) (le_n _)) as (Hpos & (tl & Htl) & _).
+  split; [exact Hpos|]. split; [exists true, tl; exact Htl|].
+  intros fuel c rest l Hf Hm Ho Hl Hc. rewrite depth2_seq in Hf. destruct fuel as [|f]; [lia|]. cbn [dec2].
+  destruct (Hfr f ltac:(lia)) as (_ & _ & H). apply H; assumption.
+Qed.
+
+Theorem schema2_roundtrip s : RT2 s.
+Proof. induction s using schema2_ind'; [apply RT2_leaf|apply RT2_seq; assumption]. Qed.
+
+(* a whole input *)
+Theorem schema2_roundtrip_top s v e m m' d : ok2 s -> enc2 s v = Some e -> enc_write m e = Ok d ->
+  octets_ok d = true -> reads m m' ->
+  decode_src m' (fun c => mandatory (dec2 (depth2 s) s c)) (pure_src d None) = (Ok v, pure_src [] None).
+Proof.
+  intros Hok He Hw Ho Hr. destruct (schema2_roundtrip s v e m d Hok He Hw) as (_ & _ & H).
+  unfold decode_src, pure_src. rewrite <- (app_nil_r d) at 1.
+  rewrite (bind_ok _ _ _ _ _ (mandatory_ok _ _ _ _ _ (H (depth2 s) (mkCons Unbounded m') [] None (le_n _) Hr
+             ltac:(rewrite app_nil_r; exact Ho) I ltac:(split; [discriminate|intro E; discriminate E])))).
+  reflexivity.
+Qed.
+
+(* non-vacuity: a record with optional fields, one present and two absent (one of them last) *)
+Example schema2_example :
+  let s := S2Seq T_SEQUENCE [(true, S2Leaf T_BOOLEAN LBool); (false, S2Leaf T_INTEGER (LInt 2));
+                             (true, S2Seq T_SET [(false, S2Leaf T_NULL LNull)]); (true, S2Leaf T_NULL LNull)] in
+  let v := VSeq [VOpt None; VInt (-300); VOpt (Some (VSeq [VNull])); VOpt None] in
+  ok2 s /\ exists e, enc2 s v = Some e /\ enc_write Der e = Ok [48; 8; 2; 2; 254; 212; 49; 2; 5; 0] /\
+  decode_src Der (fun c => mandatory (dec2 (depth2 s) s c)) (pure_src [48; 8; 2; 2; 254; 212; 49; 2; 5; 0] None) = (Ok v, pure_src [] None).
+Proof.
+  cbv zeta. split.
+  - cbn. repeat split; try (left; reflexivity); try (intros _ [E|[E|[]]]; discriminate E); try (intros _ [E|[]]; discriminate E); try (intros _ []); try discriminate.
+  - eexists. split; [reflexivity|]. split; vm_compute; reflexivity.
+Qed.
